@@ -132,6 +132,17 @@ class Synth:
             aut.moore = not aut.moore
             solve(aut, self.rabin)
             aut.moore = not aut.moore
+            # ... and an implementation constructed once while the
+            # component's action was unconstrained (restored afterwards;
+            # what this step itself returns or raises is not judged)
+            saved = aut.action['sys']
+            aut.action['sys'] = aut.true
+            try:
+                _, it0 = solve(aut, self.rabin)
+                make_transducer(aut, it0, self.rabin)
+            except Exception:  # noqa
+                pass
+            aut.action['sys'] = saved
         self.aut = aut
         self.gm = fam.GameModel(aut, case)
         self.P = [self.gm.state_table(u) for u in aut.win['<>[]']]
